@@ -548,3 +548,35 @@ def r7(ctx):
     for i in range(min(n, 120)):
         ctx.ob(f"{PU}:url#{i}", True, "URL decided", loc)
 
+
+@rule("R-C18-8", min_instances=2, title="the timeout is in place before the first socket is tried: create_connection records it on the connection's options before connect() runs (explicit value, else the process default)")
+def r8(ctx):
+    from ..models import BASE_STUBS
+    from ..values import Cls
+    idx = ctx.index
+    loc = idx.loc(idx.func("_core:create_connection").node)
+
+    def conn(I, run, args, kwargs, node):
+        ws = args[0]
+        so = run.cell(ws).fields.get("sock_opt") if isinstance(ws, Ref) else None
+        t = run.cell(so).fields.get("timeout") if isinstance(so, Ref) else None
+        run.effect("connect", (t if t is not None else NONE,), node=node)
+        return NONE
+
+    st = dict(BASE_STUBS)
+    st["_core:WebSocket.connect"] = conn
+    st["_socket:getdefaulttimeout"] = lambda I, run, a, k, n: Sym("process.default", "obj")
+    I = Interp(idx, Config(stubs=st))
+    for label, arg, want in (("explicit", Sym("t", "int"), Sym("t", "int")), ("default", None, Sym("process.default", "obj"))):
+        def body(run, arg=arg):
+            kw = {} if arg is None else {"timeout": arg}
+            return I.call(run, I.make_fn(run, "_core:create_connection"), [Sym("url", "str")], kw, None)
+        outs = ctx.count_paths(I.explore(body))
+        cs = [e for o in outs for e in o.effects if e.name == "connect"]
+        if not cs:
+            raise AnalysisError("create_connection never connects")
+        ok = all(I.resolve(o.run, e.args[0]) == want for o in outs for e in o.effects if e.name == "connect")
+        ctx.ob(f"_core:create_connection:timeout-before-connect:{label}", ok, f"connect() runs with sock_opt.timeout = {cs[0].args[0]!r}" if ok else
+               f"when connect() runs the connection's timeout is {cs[0].args[0]!r}, not {want!r}: every socket tried and the whole opening handshake run without the configured timeout",
+               cs[0].loc or loc)
+
